@@ -58,7 +58,7 @@ func genC38(t *rapid.T) c38Case {
 	for r, nr := 0, rapid.IntRange(1, 4).Draw(t, "rounds"); r < nr; r++ {
 		var rd round
 		kindSets := [][]string{
-			{"commit", "commit", "read", "iter", "batch", "gc", "flatten", "subscribe", "stream"},
+			{"commit", "commit", "read", "iter", "batch", "gc", "flatten", "subscribe", "subslow", "stream"},
 			{"commit", "commit", "batch", "dropprefix", "dropall"},
 			{"streamwriter"},
 		}
@@ -242,6 +242,36 @@ func runC38(c c38Case, rec *evid.Rec) (core.Result, error) {
 				cancel()
 				<-done
 				note(nil)
+			case "subslow":
+				// a subscriber whose callback is stuck until its context is cancelled, while more than a
+				// thousand update batches (the capacity of its channel) pile up behind it
+				ctx, cancel := context.WithCancel(context.Background())
+				done := make(chan error, 1)
+				go func() {
+					done <- db.Subscribe(ctx, func(kv *badger.KVList) error { <-ctx.Done(); return nil }, []pb.Match{{Prefix: []byte("slow/")}})
+				}()
+				deadline := time.Now().Add(10 * time.Second)
+				for db.VerifNumSubscribers() == 0 && time.Now().Before(deadline) {
+					time.Sleep(50 * time.Microsecond)
+				}
+				wrote := make(chan struct{})
+				go func() { // its commits stall once the subscriber's channel is full (back-pressure)
+					defer close(wrote)
+					for j := 0; j < 1100; j++ {
+						if err := db.Update(func(txn *badger.Txn) error { return txn.Set([]byte(fmt.Sprintf("slow/%d", j%7)), []byte{1}) }); err != nil {
+							return
+						}
+					}
+				}()
+				select {
+				case <-wrote:
+				case <-time.After(300 * time.Millisecond):
+				}
+				cancel() // the stuck callback returns, the subscription ends, the stalled commits proceed
+				<-done
+				<-wrote
+				note(nil)
+				return
 			case "stream":
 				st := db.NewStream()
 				st.NumGo = 2
@@ -371,6 +401,6 @@ func TestKF_C38Strict(t *testing.T) {
 
 func TestC38_NoDeadlock(t *testing.T) {
 	core.Run(t, "C38", "nodeadlock",
-		"rapid-generated scenarios on a store with two compactors, 8-16 KB memtables, 1-2 memtables, 1-2 L0 tables before compaction and a stall limit one above (writes stall on a full L0 / memtable queue all the time): 1-4 rounds of 2-7 concurrent actor goroutines - committers, Get readers, iterators, WriteBatch.Flush, RunValueLogGC, Flatten, Subscribe + cancel, Stream in one kind of round; committers and batches racing DropPrefix / DropAll in another; a StreamWriter (Prepare/Write/Flush) alone in a third (reads are kept out of rounds with drops and nothing runs next to a StreamWriter, as documented) - then Close with 0-4 committers/batch writers still running. Jitter at the hook points. Oracle: every round's calls, Close, and the writers in flight during Close all return (any error is fine) within 180 s (normal: well under a second); a panic or process death counts as well. Non-trivial = >=20 calls over >=3 actor kinds.",
+		"rapid-generated scenarios on a store with two compactors, 8-16 KB memtables, 1-2 memtables, 1-2 L0 tables before compaction and a stall limit one above (writes stall on a full L0 / memtable queue all the time): 1-4 rounds of 2-7 concurrent actor goroutines - committers, Get readers, iterators, WriteBatch.Flush, RunValueLogGC, Flatten, Subscribe + cancel (also with a callback that is stuck while >1000 update batches queue up behind it), Stream in one kind of round; committers and batches racing DropPrefix / DropAll in another; a StreamWriter (Prepare/Write/Flush) alone in a third (reads are kept out of rounds with drops and nothing runs next to a StreamWriter, as documented) - then Close with 0-4 committers/batch writers still running. Jitter at the hook points. Oracle: every round's calls, Close, and the writers in flight during Close all return (any error is fine) within 180 s (normal: well under a second); a panic or process death counts as well. Non-trivial = >=20 calls over >=3 actor kinds.",
 		genC38, runC38)
 }
